@@ -3,6 +3,7 @@ the real fparser2 engine: same reader items, leaf oracle answered by the real st
 compared on outcome kind, complete tree shape, exact reader-level Base.__new__ count, reported
 error line, scope depth and symbol-table structure after the parse."""
 import os
+import sys
 import subprocess
 import tempfile
 
@@ -13,6 +14,10 @@ VERIF = os.path.dirname(os.path.dirname(os.path.abspath(__file__)))
 DRIVER = os.path.join(VERIF, "ocaml", "_build", "driver")
 
 _tables = {}
+
+
+# deep expression nests: the interpreter's default recursion limit is not what is being compared
+sys.setrecursionlimit(max(sys.getrecursionlimit(), 12000))
 
 
 def tables(std):
@@ -192,7 +197,8 @@ def run_real(std, src, ignore_comments=True, process_directives=False, intern=No
         out = fp.parse(src, std=std, rd=rd, clear=False)
     res = dict(kind=out.kind if not out.kind.startswith("escape:") else "escape:" + esc_class(out.kind),
                line=out.line or 0, cost=cc.reader_calls, depth=fp.scope_depth(),
-               tables=fp.tables_str(intern), shape="", exc=out.exc, raw_kind=out.kind)
+               tables=fp.tables_str(intern), shape="", exc=out.exc, raw_kind=out.kind,
+               lcost=sum(len(getattr(it, "parse_cache", ())) for it in order))
     if out.kind == "tree":
         res["shape"] = real_shape(T, out.tree, seen)
     fp.SYMBOL_TABLES.clear()
@@ -216,7 +222,7 @@ def compare(std, src, model=None, **kw):
             model.close()
     r = run_real(std, src, intern=m["intern"], **kw)
     diffs = []
-    for key in ("kind", "shape", "cost", "depth", "tables"):
+    for key in ("kind", "shape", "cost", "lcost", "depth", "tables"):
         if m[key] != r[key]:
             diffs.append("%s: model=%r real=%r" % (key, m[key], r[key]))
     if m["kind"] == "syntax" and r["kind"] == "syntax" and m["line"] != r["line"]:
